@@ -9,7 +9,7 @@ cond2arithm.  Snapshot 0 is the output of Polar's parser.
 """
 import itertools
 
-from ..common import base_programs, alias_programs, exc_name, build_model
+from ..common import base_programs, alias_programs, abstraction_programs, exc_name, build_model
 from ..model import Model, NotApplicable, CapHit
 from ..refparser import parse_program, NotPolynomial
 from ..poly import Poly, ZERO, ONE, parse_poly
@@ -44,7 +44,7 @@ def bounds(tier):
 def cases(tier, seed):
     out = []
     N = 3 if tier == "quick" else 4
-    for text in base_programs(tier) + alias_programs(tier):
+    for text in base_programs(tier) + alias_programs(tier) + abstraction_programs(tier):
         for si, st in enumerate(SETTINGS):
             if si == 1 and "{" not in text:
                 continue
@@ -124,6 +124,36 @@ def compare_models(src, ir, vars_, N, stats):
     return None
 
 
+def _feeding_vars(irp, seeds):
+    """Variables that (transitively) feed the given ones through assignments of the loop body, plus the seeds."""
+    from .. import lang as L
+
+    deps = {}
+
+    def walk(stmts):
+        for st in stmts:
+            if isinstance(st, L.If):
+                for b in st.branches:
+                    walk(b)
+                if st.else_branch:
+                    walk(st.else_branch)
+            else:
+                for t, r in zip(st.targets, st.rhss):
+                    deps.setdefault(t, set()).update(r.reads())
+
+    walk(irp.body)
+    out = set(seeds)
+    changed = True
+    while changed:
+        changed = False
+        for v in list(out):
+            for u in deps.get(v, ()):
+                if u not in out:
+                    out.add(u)
+                    changed = True
+    return out
+
+
 def run_case(case):
     from .. import polar, irmodel
 
@@ -168,12 +198,14 @@ def run_case(case):
             if irp is None:
                 stats["snapshots_uninterpretable"] += 1
                 continue
-            if getattr(irp, "abstracted", None):
-                stats["snapshots_uninterpretable"] += 1
-                continue
             try:
                 with cpu_limit(30):
                     irm = Model(irp, max_states=5000)
+                    if getattr(irp, "abstracted", None):
+                        # conditions abstracted as independent coins: give each coin the probability of its condition
+                        # (computed by the model at the coin's program point); the distribution must still be the source's
+                        irm.params = irmodel.abstraction_values(irp)
+                        stats["snapshots_with_abstraction"] = stats.get("snapshots_with_abstraction", 0) + 1
                     present = [v for v in src_vars if v in irp.assigned()]
                     removed = [v for v in src_vars if v not in irp.assigned()]
                     mm = compare_models(src, irm, present, N, stats)
@@ -196,6 +228,28 @@ def run_case(case):
                 stats["refusals"]["timeout@model"] = stats["refusals"].get("timeout@model", 0) + 1
                 continue
             interpreted += 1
+            if mm and getattr(irp, "abstracted", None):
+                # classification: if the distribution over the source variables that do NOT occur in an abstracted
+                # condition (nor feed one) is preserved, the difference is exactly the known call-site finding "the coin
+                # is independent of the condition's own variables, so their joint law with the rest changes"
+                cond_vars = set()
+                for cnd in irp.abstracted.values():
+                    cond_vars |= cnd.vars()
+                # close under aliases: variables assigned from / feeding those variables (alias chains _r = g - 1/4, h = g)
+                feeds = _feeding_vars(irp, cond_vars)
+                rest = [v for v in present if v not in feeds]
+                try:
+                    with cpu_limit(30):
+                        irm2 = Model(irp, max_states=5000)
+                        irm2.params = irm.params
+                        mm2 = compare_models(src, irm2, rest, N, stats)
+                except (NotApplicable, CapHit, CpuTimeout):
+                    mm2 = mm
+                if mm2 is None:
+                    res["violations"].append({"sub": "abstraction-joint-law",
+                                              "detail": {"mismatch": mm, "program": text, "settings": case["input"]["settings"],
+                                                         "condition_variables": sorted(feeds), "ir": irp.text()}})
+                    break
             if mm:
                 res["violations"].append({"sub": "after:%d:%s" % (i, name),
                                           "detail": {"mismatch": mm, "program": text, "settings": case["input"]["settings"],
